@@ -333,8 +333,16 @@ def run_property(prop, spec, tier, seed, replay=None):
             violations.append((path, how))
 
     wall = time.time() - t0
+    extra = []
+    rcs = sorted({j.args[1] for j in jobs if j.rc})
+    if rcs:
+        extra.append('rapidcheck generator(s) %s (src/gen/rc_cases.cpp; RC_PARAMS seed derived from VERIF_SEED; failures shrunk by rapidcheck)' % ', '.join(rcs))
+    fz = sorted({j.binary for j in jobs if j.kind == 'fuzz'})
+    if fz:
+        extra.append('libFuzzer target(s) %s with this oracle inside the target (16 instances, half seeded from corpus/, half from an empty corpus)' % ', '.join(fz))
+    rule = spec['rule'] + (' The same oracle is also driven by ' + ' and by '.join(extra) + '; their non-trivial cases are counted by 64-bit case hash, merged across processes.' if extra else '')
     cov = {
-        'evaluations': agg['evaluations'], 'distinct_nontrivial': distinct_nt, 'rule': spec['rule'],
+        'evaluations': agg['evaluations'], 'distinct_nontrivial': distinct_nt, 'rule': rule,
         'samples': agg['samples'] or ['(no non-trivial sample recorded)'],
         'campaigns': agg['campaigns'], 'classes': agg['classes'], 'skipped_outside_domain': agg['skipped'],
         'notes': agg['notes'], 'counters': agg['counters'], 'inconclusive_remainder': agg['inconclusive'],
